@@ -213,6 +213,10 @@ def run(c):
         if hb is None:
             fut_p.result()
             return c.finish()
+        # the two harness processes are started from two threads: write the -modfile pair once (vlib rewrites it on
+        # every call through a temporary file named after the pid, which two threads of one process would share)
+        modfile = c.harness_modfile()
+        c.harness_modfile = lambda: modfile
         fut_e = ex.submit(explore, hb, c.seed, 22 if not thorough else 420, "explore", thorough)
         fut_f = ex.submit(findtype, hb, c.seed, 8 if not thorough else 60, 3 if not thorough else 30, "findtype")
         proved = fut_p.result()
